@@ -17,6 +17,7 @@ MODE = {"F": 0o100644, "X": 0o100755, "L": 0o120000, "G": 0o160000, "T": 0o04000
 LETTER = {v: k for k, v in MODE.items()}
 MODEOCT = {k: b"%o" % v for k, v in MODE.items()}
 BLOBS = {c: (c + "\n").encode() * 3 + hashlib.sha1(c.encode()).hexdigest().encode() + b"\n" for c in "xyzw"}
+BLOBS["u"] = BLOBS["x"] + b"one more line\n"     # an edited copy of x: similar above RENAME_THRESHOLD, unrelated to the others
 FLAGS = [(wu, it, cts) for wu in (False, True) for it in (False, True) for cts in (False, True)]
 FLAGKEY = ["".join("1" if b else "0" for b in f) for f in FLAGS]
 EMPTY_TREE = "4b825dc642cb6eb9a060e54bf8d69288fbee4904"
@@ -507,10 +508,47 @@ def run_diff_case(R, col, c, filters, gitout=None, traces=None, verbose=False):
             col.fail("dulwich/diff_tree.py:RenameDetector", "rename:exact", feat, size, txt, {"real": real, "expected": exp}, raw)
         elif not c["unamb"] and traces is not None:
             traces.append({"A": A, "B": B, "t": {"tid": 0, "kind": "rename", "A": jlist(A), "B": jlist(B), "fl": [False, False, False],
-                                                 "paths": [], "cl": [], "c": with_trees(R, real), "tree": [], "iter": [], "res": "ok"}})
+                                                 "paths": [], "cl": [], "c": with_trees(R, real), "tree": [], "iter": [], "res": "ok", "m": 200, "step": 0}})
     # --- material for the C git cross-check of the *spec*
     if gitout is not None:
         gitout.append((ida[b""], idb[b""], c))
+
+
+def run_seq_case(R, col, c, verbose=False):
+    """one RenameDetector object used for the diffs of c["steps"] in turn; the result of every
+    step must be what the model says for that pair alone"""
+    from dulwich.diff_tree import RenameDetector
+    det = RenameDetector(R.store, max_files=c["m"])
+    col.n += 1
+    col.nontrivial += 1
+    raw = {"kind": "seq", "case": c}
+    hist = []
+    for k, st in enumerate(c["steps"]):
+        A, B = st["A"], st["B"]
+        ida, idb = tree_ids(st["ta"]), tree_ids(st["tb"])
+        hist.append(f"{show_listing(A)}->{show_listing(B)}")
+        txt = f"max_files={c['m']} one detector: " + " ; ".join(hist)
+        size = sum(len(x["A"]) + len(x["B"]) for x in c["steps"][:k + 1])
+        ta, e1 = call(R.build_cached, A)
+        tb, e2 = call(R.build_cached, B)
+        if e1 or e2 or ta.decode() != ida[b""] or tb.decode() != idb[b""]:
+            col.fail("dulwich/index.py:commit_tree", "tree-id", "", size, txt, {"in": "seq case"}, raw)
+            return
+        exp = sorted(exp_changes(st["ren"], ida, idb), key=repr)
+        real, exc = call(lambda: real_changes(det.changes_with_renames(ta, tb)))
+        if verbose:
+            print(f"  step {k + 1} changes_with_renames({show_listing(A)} -> {show_listing(B)}) -> "
+                  f"{exc or [(t, show_entry(o), show_entry(n)) for t, o, n in real]}")
+            print(f"      expected {[(t, show_entry(o), show_entry(n)) for t, o, n in exp]}")
+        if exc:
+            col.fail("dulwich/diff_tree.py:RenameDetector", f"raised:{exc}[step{k + 1}]", features(A, B), size, txt, {}, raw, AB=(A, B))
+            return
+        if sorted(real, key=repr) != exp:
+            fresh, _ = call(lambda: real_changes(RenameDetector(R.store, max_files=c["m"]).changes_with_renames(ta, tb)))
+            clause = "rename:stateful" if fresh is not None and sorted(fresh, key=repr) == exp else "rename:content"
+            col.fail("dulwich/diff_tree.py:RenameDetector", f"{clause}[step{k + 1}]", features(A, B), size, txt,
+                     {"real": real, "expected": exp, "fresh_detector": fresh}, raw, AB=(A, B))
+            return
 
 
 # --------------------------------------------------------------------------- code -> spec traces
@@ -541,9 +579,11 @@ def with_trees(R, changes):
 def run_trace_case(R, t):
     """t: {"tid", "kind", ...inputs}; returns the trace record for TLC (inputs + real results)"""
     kind = t["kind"]
+    if kind == "renseq":
+        return run_renseq(R, t)
     out = {"tid": t["tid"], "kind": kind, "A": jlist(t["A"]), "B": jlist(t.get("B", [])),
            "fl": t.get("fl", [False, False, False]), "paths": t.get("paths", []), "cl": [], "c": [],
-           "tree": [], "iter": [], "res": "ok"}
+           "tree": [], "iter": [], "res": "ok", "m": 200, "step": 0}
     try:
         ta = R.build(t["A"], t.get("order", 0))
         if kind == "build":
@@ -564,6 +604,22 @@ def run_trace_case(R, t):
     return out
 
 
+def run_renseq(R, t):
+    """one detector object for all diffs of t["steps"]; one recording (kind rename) per step"""
+    from dulwich.diff_tree import RenameDetector
+    det = RenameDetector(R.store, max_files=t["m"])
+    outs = []
+    for k, (A, B) in enumerate(t["steps"]):
+        out = {"tid": t["tid"], "kind": "rename", "A": jlist(A), "B": jlist(B), "fl": [False, False, False], "paths": [],
+               "cl": [], "c": [], "tree": [], "iter": [], "res": "ok", "m": t["m"], "step": k}
+        try:
+            out["c"] = with_trees(R, real_changes(det.changes_with_renames(R.build(A), R.build(B))))
+        except Exception as e:
+            out["res"] = "exc:" + type(e).__name__
+        outs.append(out)
+    return outs
+
+
 # --------------------------------------------------------------------------- entry
 def main(argv):
     mode, task, outp = argv[:3]
@@ -582,6 +638,8 @@ def main(argv):
                 c = json.loads(line)
                 if "tree" in c:
                     run_build_case(R, col, c, sink)
+                elif "steps" in c:
+                    run_seq_case(R, col, c)
                 else:
                     run_diff_case(R, col, c, filters, gitout, traces if job.get("emit_traces") else None)
                     if sink is not None:
@@ -599,7 +657,8 @@ def main(argv):
         with open(job["cases"]) as f:
             for line in f:
                 t = json.loads(line)
-                res["traces"].append(run_trace_case(R, t))
+                r = run_trace_case(R, t)
+                res["traces"] += r if isinstance(r, list) else [r]
                 col.n += 1
     # the store must still be consistent (nothing mutated a stored object in place)
     bad = [k for k, o in R.store._data.items() if o.id != k]
